@@ -487,8 +487,9 @@ Expect ref_b3_multi(const std::string &tid, const std::string &sid, const std::s
 }
 
 // both styles: "B3 single header taking precedence over multi headers".  A documented single
-// header decides alone.  When the single header is malformed or in a gray spelling, a reader may
-// reject it - and then may or may not fall back to the multi headers.
+// header decides alone - also the documented sampling-only forms "0", "1", "d", which carry no ids (nothing
+// is installed then).  When the single header is malformed or in a gray spelling, a reader may reject it -
+// and then may or may not fall back to the multi headers.
 Expect ref_b3(const std::string &b3, const std::string &tid, const std::string &sid,
               const std::string &smp)
 {
@@ -502,6 +503,13 @@ Expect ref_b3(const std::string &b3, const std::string &tid, const std::string &
   if (s.must())
   {
     s.tags.push_back("single-wins");
+    return s;
+  }
+  // a lone sampling state ("0", "1", "d") is a documented, valid single header that carries no ids: it
+  // takes precedence too, so the multi headers next to it must not be used (nothing is installed)
+  if (b3 == "0" || b3 == "1" || b3 == "d")
+  {
+    s.tags.push_back("sampling-only-single-wins");
     return s;
   }
   Expect m = ref_b3_multi(tid, sid, smp);
